@@ -24,9 +24,9 @@ metas = [json.load(open(os.path.join(d, 'meta.json'))) for d in sorted(glob.glob
 n_all = len(metas); n_str = len([m for m in metas if m.get('strengthening')])
 rounds = sorted({m.get('round', 1) for m in metas})
 per_round = [len([m for m in metas if m.get('round', 1) == r]) for r in rounds]
-words = {1: 'one round', 2: 'two rounds', 3: 'three rounds', 4: 'four rounds', 5: 'five rounds', 6: 'six rounds', 7: 'seven rounds', 8: 'eight rounds', 9: 'nine rounds', 10: 'ten rounds', 11: 'eleven rounds', 12: 'twelve rounds', 13: 'thirteen rounds'}
+words = {1: 'one round', 2: 'two rounds', 3: 'three rounds', 4: 'four rounds', 5: 'five rounds', 6: 'six rounds', 7: 'seven rounds', 8: 'eight rounds', 9: 'nine rounds', 10: 'ten rounds', 11: 'eleven rounds', 12: 'twelve rounds', 13: 'thirteen rounds', 14: 'fourteen rounds'}
 n_out = len([m for m in metas if m.get('outside_statement')])
-seedsummary = f"{n_all} seeded changes in {words.get(len(rounds), str(len(rounds)) + ' rounds')} ({' + '.join(str(x) for x in per_round)}): {n_all - n_str} were reported by the checks as they stood when the change arrived, {n_str} were not and led to strengthened checks; all are reported now (last column)" + (f", except {n_out} whose effect lies at a boundary the statement leaves open (C12 round 3: a stall that ends with the next completion when exactly max_receive_size bytes are in flight) and is deliberately not demanded." if n_out else ".")
+seedsummary = f"{n_all} seeded changes in {words.get(len(rounds), str(len(rounds)) + ' rounds')} ({' + '.join(str(x) for x in per_round)}): {n_all - n_str} were reported by the checks as they stood when the change arrived, {n_str} were not and led to strengthened checks; all are reported now (last column)" + (f", except {n_out}: one whose effect lies at a boundary the statement leaves open and is deliberately not demanded (C12 round 3: a stall that ends with the next completion when exactly max_receive_size bytes are in flight), and one that needs a situation outside its property's quantifier and was left open (C14 round 14: a release refused by the encoder because another task's streamed publish is open; section 9.2)." if n_out else ".")
 # mutation sweep numbers (sweep/results.jsonl is a copy of the scratch results, committed with the scripts)
 sw_total, sw_summary = '?', '(no results stored).'
 try:
